@@ -73,6 +73,10 @@ structure EnvSem (σ α ω ρ : Type) where
   getAttr : σ → String → Val ω
   setAttr : σ → String → Val ω → σ
   method : σ → String → List Int → σ × Val ω
+  /-- `is_wrapped(env, wrapper_class)` -/
+  isWrapped : σ → String → Bool
+  /-- `env.close()` -/
+  close : σ → σ
 
 /-! ### Commands and replies on the pipes -/
 
@@ -82,6 +86,10 @@ inductive Cmd (α ω : Type) where
   | getAttr (name : String)
   | setAttr (name : String) (v : Val ω)
   | envMethod (name : String) (args : List Int)
+  | isWrapped (cls : String)
+  /-- `("close", None)`: the worker closes its environment and exits; the "reply" `None` stands for the process exit
+  that the parent observes with `process.join()` -/
+  | close
   deriving DecidableEq, Repr
 
 inductive Reply (ω ρ : Type) where
@@ -127,6 +135,8 @@ def Worker.react (E : EnvSem σ α ω ρ) (w : W σ ω) : Cmd α ω → W σ ω 
   | .envMethod name args =>
     let y := E.method w.env name args
     ({ w with env := y.1 }, .val y.2)
+  | .isWrapped cls => (w, .val (.bool (E.isWrapped w.env cls)))
+  | .close => ({ w with env := E.close w.env }, .val .none)
 
 /-! ### Target selection, parent-side bookkeeping (common to both classes: `base_vec_env.py`) -/
 
@@ -167,6 +177,7 @@ inductive Op (α ω : Type) where
   | getAttr (name : String) (idx : Indices)
   | setAttr (name : String) (v : Val ω) (idx : Indices)
   | envMethod (name : String) (args : List Int) (idx : Indices)
+  | isWrapped (cls : String) (idx : Indices)
   deriving DecidableEq, Repr
 
 /-- `enumerate`: element `j` of the list is addressed to sub-environment `k + j`. -/
@@ -185,6 +196,7 @@ def plan (n : Nat) (seeds : List (Option Int)) (options : List Opts) : Op α ω 
   | .getAttr name idx => (getIndices n idx).map fun i => (i, Cmd.getAttr name)
   | .setAttr name v idx => (getIndices n idx).map fun i => (i, Cmd.setAttr name v)
   | .envMethod name args idx => (getIndices n idx).map fun i => (i, Cmd.envMethod name args)
+  | .isWrapped cls idx => (getIndices n idx).map fun i => (i, Cmd.isWrapped cls)
 
 /-- The operation is within the domain of both classes (no `IndexError`, one action per sub-environment). -/
 def Op.valid (n : Nat) : Op α ω → Prop
@@ -195,6 +207,7 @@ def Op.valid (n : Nat) : Op α ω → Prop
   | .getAttr _ idx => ∀ i ∈ getIndices n idx, i < n
   | .setAttr _ _ idx => ∀ i ∈ getIndices n idx, i < n
   | .envMethod _ _ idx => ∀ i ∈ getIndices n idx, i < n
+  | .isWrapped _ idx => ∀ i ∈ getIndices n idx, i < n
 
 instance (n : Nat) (op : Op α ω) : Decidable (op.valid n) := by
   cases op <;> simp only [Op.valid] <;> infer_instance
@@ -248,6 +261,7 @@ def assemble (op : Op α ω) (n : Nat) (replies : List (Reply ω ρ)) (resetInfo
   | .getAttr _ _ => { results := replies.filterMap Reply.val?, resetInfos := resetInfos }
   | .setAttr _ _ _ => { resetInfos := resetInfos }
   | .envMethod _ _ _ => { results := replies.filterMap Reply.val?, resetInfos := resetInfos }
+  | .isWrapped _ _ => { results := replies.filterMap Reply.val?, resetInfos := resetInfos }
 
 /-! ### DummyVecEnv: sequential loops in the parent process -/
 
@@ -289,6 +303,8 @@ def Dummy.callEnv (E : EnvSem σ α ω ρ) (d : Dummy σ ω) (i : Nat) (c : Cmd 
     | .envMethod name args =>
       let y := E.method e name args
       ({ d with envs := d.envs.set i y.1 }, .val y.2)
+    | .isWrapped cls => (d, .val (.bool (E.isWrapped e cls)))
+    | .close => ({ d with envs := d.envs.set i (E.close e) }, .val .none)
 
 /-- `for env_idx in …:` — the iterations one after the other -/
 def Dummy.loop (E : EnvSem σ α ω ρ) (d : Dummy σ ω) : List (Nat × Cmd α ω) → Dummy σ ω × List (Reply ω ρ)
@@ -462,6 +478,126 @@ def Sys.runOps (E : EnvSem σ α ω ρ) (s : Sys σ α ω ρ) (sch : Sched) :
 def Sys.pendingWork (s : Sys σ α ω ρ) : Nat :=
   (s.procs.map fun p => p.inbox.length + p.outbox.length).sum
 
+/-! ### The objects with `step_async` / `step_wait` / `close` and the flags `waiting`, `closed` -/
+
+/-- A call on the vectorised-environment object: an operation that sends and receives within one call, or one of the
+calls that leave / rely on state in the pipes. -/
+inductive Call (α ω : Type) where
+  | op (o : Op α ω)
+  | stepAsync (acts : List α)
+  | stepWait
+  | close
+  deriving DecidableEq, Repr
+
+/-- the `SubprocVecEnv` object: pipes and bookkeeping plus `self.waiting`, `self.closed` -/
+structure Sub (σ α ω ρ : Type) where
+  sys : Sys σ α ω ρ
+  waiting : Bool
+  closed : Bool
+  deriving DecidableEq, Repr
+
+/-- the `DummyVecEnv` object: `self.actions` is what `step_async` stored -/
+structure Dum (σ α ω : Type) where
+  d : Dummy σ ω
+  actions : List α
+  deriving DecidableEq, Repr
+
+def Sub.init (envs : List σ) : Sub σ α ω ρ := { sys := Sys.init envs, waiting := false, closed := false }
+def Dum.init (envs : List σ) : Dum σ α ω := { d := Dummy.init envs, actions := [] }
+
+/-- `zip(self.remotes, actions)` -/
+def stepPlan (acts : List α) : List (Nat × Cmd α ω) := indexedFrom 0 (acts.map Cmd.step)
+
+/-- `for remote in self.remotes: remote.send(("close", None))` … `for process in self.processes: process.join()` -/
+def closePlan (n : Nat) : List (Nat × Cmd α ω) := (List.range n).map fun i => (i, Cmd.close)
+
+/-- `[remote.recv() for remote in self.remotes]` -/
+def recvAll (n : Nat) : List (PAct α ω) := (List.range n).map PAct.recv
+
+def sendsOf (pl : List (Nat × Cmd α ω)) : List (PAct α ω) := pl.map fun x => PAct.send x.1 x.2
+
+/-- One call on `SubprocVecEnv` under a schedule. `none` = the parent blocks forever. -/
+def Sub.run (E : EnvSem σ α ω ρ) (x : Sub σ α ω ρ) (sch : Sched) : Call α ω → Option (Sub σ α ω ρ × Sched × Out ω ρ)
+  | .op o =>
+    match Sys.runOp E x.sys sch o with
+    | none => none
+    | some r => some ({ x with sys := r.1 }, r.2.1, r.2.2)
+  | .stepAsync acts =>
+    -- for remote, action in zip(self.remotes, actions): remote.send(("step", action));  self.waiting = True
+    match runProg E x.sys.procs sch (sendsOf (stepPlan acts)) with
+    | none => none
+    | some r =>
+      some ({ x with sys := { x.sys with procs := r.1 }, waiting := true }, r.2.1, { resetInfos := x.sys.resetInfos })
+  | .stepWait =>
+    -- results = [remote.recv() for remote in self.remotes];  self.waiting = False;  … = zip(*results)
+    match runProg E x.sys.procs sch (recvAll x.sys.procs.length) with
+    | none => none
+    | some r =>
+      let s' := Sys.post x.sys r.1 r.2.2 (Op.step [] : Op α ω)
+      some ({ x with sys := s', waiting := false }, r.2.1, assemble (Op.step [] : Op α ω) x.sys.procs.length r.2.2 s'.resetInfos)
+  | .close =>
+    -- if self.closed: return;  if self.waiting: recv from every remote;  send close to every remote;  join;  closed = True
+    if x.closed then some (x, sch, { resetInfos := x.sys.resetInfos })
+    else
+      match runProg E x.sys.procs sch
+          ((if x.waiting then recvAll x.sys.procs.length else []) ++ program (closePlan x.sys.procs.length)) with
+      | none => none
+      | some r =>
+        some ({ x with sys := { x.sys with procs := r.1 }, closed := true }, r.2.1, { resetInfos := x.sys.resetInfos })
+
+/-- One call on `DummyVecEnv`. `step_wait` executes the stored actions; `close` closes every environment (again, if
+called twice: there is no `closed` flag). -/
+def Dum.run (E : EnvSem σ α ω ρ) (cast : ρ → ρ) (y : Dum σ α ω) : Call α ω → Dum σ α ω × Out ω ρ
+  | .op o => ({ y with d := (Dummy.runOp E cast y.d o).1 }, (Dummy.runOp E cast y.d o).2)
+  | .stepAsync acts => ({ y with actions := acts }, { resetInfos := y.d.resetInfos })
+  | .stepWait => ({ y with d := (Dummy.runOp E cast y.d (Op.step y.actions)).1 }, (Dummy.runOp E cast y.d (Op.step y.actions)).2)
+  | .close =>
+    let l := Dummy.loop E y.d (closePlan y.d.envs.length)
+    ({ y with d := l.1 }, { resetInfos := l.1.resetInfos })
+
+def Sub.runAll (E : EnvSem σ α ω ρ) (x : Sub σ α ω ρ) (sch : Sched) :
+    List (Call α ω) → Option (Sub σ α ω ρ × Sched × List (Out ω ρ))
+  | [] => some (x, sch, [])
+  | c :: rest =>
+    match Sub.run E x sch c with
+    | none => none
+    | some r =>
+      match Sub.runAll E r.1 r.2.1 rest with
+      | none => none
+      | some q => some (q.1, q.2.1, r.2.2 :: q.2.2)
+
+def Dum.runAll (E : EnvSem σ α ω ρ) (cast : ρ → ρ) (y : Dum σ α ω) : List (Call α ω) → Dum σ α ω × List (Out ω ρ)
+  | [] => (y, [])
+  | c :: rest =>
+    ((Dum.runAll E cast (Dum.run E cast y c).1 rest).1,
+      (Dum.run E cast y c).2 :: (Dum.runAll E cast (Dum.run E cast y c).1 rest).2)
+
+/-- What the object's protocol allows next. -/
+inductive Phase where
+  | idle      -- no step outstanding
+  | waiting   -- `step_async` sent, `step_wait` not yet called
+  | closed
+  deriving DecidableEq, Repr
+
+/-- Domain of the calls: `none` = outside the domain of the classes in this phase (e.g. `get_attr` between
+`step_async` and `step_wait`, anything but `close` after `close`). -/
+def Call.next (n : Nat) : Phase → Call α ω → Option Phase
+  | .idle, .op o => if o.valid n then some .idle else none
+  | .idle, .stepAsync acts => if acts.length = n then some .waiting else none
+  | .waiting, .stepWait => some .idle
+  | .idle, .close => some .closed
+  | .waiting, .close => some .closed
+  | .closed, .close => some .closed
+  | _, _ => none
+
+/-- phase after a history; `none` = the history leaves the domain -/
+def phaseAfter (n : Nat) : Phase → List (Call α ω) → Option Phase
+  | p, [] => some p
+  | p, c :: rest =>
+    match Call.next n p c with
+    | none => none
+    | some p' => phaseAfter n p' rest
+
 /-! ### float32 conversion of an exact value (the `cast` of the real `DummyVecEnv`) -/
 
 def pow2 (e : Int) : Rat := if e ≥ 0 then ((2 ^ e.toNat : Nat) : Rat) else 1 / ((2 ^ (-e).toNat : Nat) : Rat)
@@ -499,6 +635,8 @@ structure St where
   nSteps : Nat := 0
   someAttr : Int := 0
   lastAction : Int := -1
+  wrapped : Bool := false      -- inside a `PassThrough` wrapper
+  closed : Bool := false
   deriving DecidableEq, Repr
 
 /-- `harness/envs.py:make_tag` -/
@@ -551,8 +689,11 @@ def method (s : St) (name : String) (args : List Int) : St × Val Nat :=
   | "echo" => (s, .ints ((s.envId : Int) :: args))
   | _ => (s, .none)
 
+def isWrapped (s : St) (cls : String) : Bool := s.wrapped && cls == "PassThrough"
+
 def sem : EnvSem St Int Nat Rat :=
-  { step := step, reset := reset, getAttr := getAttr, setAttr := setAttr, method := method }
+  { step := step, reset := reset, getAttr := getAttr, setAttr := setAttr, method := method,
+    isWrapped := isWrapped, close := fun s => { s with closed := true } }
 
 end Scripted
 
